@@ -135,6 +135,58 @@ def run(rep, tier, seed, budget):
         if bad:
             col.candidate({"prop": "C05", "kind": "matching", "graph": g})
 
+    # the same through the public API: every aromatic skeleton a SMILES can spell with n atoms 'c' - the solver chooses the
+    # spanning tree in writing order (the parent of atom i is atom i-1 or one of its ancestors), then which other pairs are
+    # ring bonds (degree <= 3) - is written out and sent through the real encoder and decoder; O-KEK decides what must happen
+    def struct_input(n):
+        def mk():
+            parent, stack = [None], [0]
+            deg = [0] * n
+            for i in range(1, n):
+                cands = [k for k in range(len(stack)) if deg[stack[k]] < 3]
+                k = cands[int(fresh_int("p%d" % i, 0, len(cands) - 1))]
+                parent.append(stack[k])
+                deg[stack[k]] += 1
+                deg[i] += 1
+                stack = stack[:k + 1] + [i]
+            tree = {(parent[i], i) for i in range(1, n)}
+            rings = []
+            for i in range(n):
+                for j in range(i + 1, n):
+                    if (i, j) in tree or deg[i] >= 3 or deg[j] >= 3:
+                        continue
+                    if bool(engine.fresh_bool("r_%d_%d" % (i, j))):
+                        rings.append((i, j))
+                        deg[i] += 1
+                        deg[j] += 1
+            children = {i: [] for i in range(n)}
+            for i in range(1, n):
+                children[parent[i]].append(i)
+            lab = {e: k + 1 for k, e in enumerate(sorted(rings, key=lambda e: (e[1], e[0])))}
+
+            def atom(u):
+                t = "c"
+                for e in sorted(rings):
+                    if u in e:
+                        t += str(lab[e]) if lab[e] < 10 else "%%%d" % lab[e]
+                ch = children[u]
+                for c in ch[:-1]:
+                    t += "(" + atom(c) + ")"
+                if ch:
+                    t += atom(ch[-1])
+                return t
+            return atom(0)
+        return mk
+
+    for n in ((4, 6) if quick else (4, 6, 7, 8)):
+        left = t_end - time.time()
+        name = "every aromatic skeleton of %d atoms 'c' a SMILES can spell (spanning tree and ring bonds chosen by the solver), through encoder and decoder" % n
+        bounds = {"atoms": n, "max_degree": 3, "spanning_tree": "every writing order", "ring_bonds": "every subset of the remaining pairs"}
+        if left < 4:
+            rep.parts.append({"name": name, "complete": False, "paths": 0, "bounds": bounds, "claim": "not started (time budget)"})
+            continue
+        rt.explore(rep, ctx, name, struct_input(n), jf, bounds, left * (0.3 if quick else 0.4), table_mode="relaxed", kind="kekulize", strict=True)
+
     for NMATCH in ((4, 6) if quick else (4, 6, 8)):
         left = t_end - time.time()
         name = "find_perfect_matching on every labelled graph with %d nodes and degree <= 3 (edges chosen by the solver)" % NMATCH
